@@ -66,6 +66,7 @@ def run_case(acc, cseed, tmpdir):
     from admin.authorize_signer import do_authorize_signer
     import signapp
     rng = random.Random(cseed)
+    run_main.vary = random.Random(cseed ^ 0x5a5a5a)
     case = {"seed": cseed}
 
     def bad(mech, **d):
